@@ -21,6 +21,8 @@ def run(check):
     check.run_rule('C12.R1', lambda c: rule_prepare_table(c, 'C12.R1', 'C12.R1'))
     from ..rules_modifiers import rule_kwopos_index
     check.run_rule('C12.R1k', lambda c: rule_kwopos_index(c, 'C12.R1'))
+    from ..rules_modifiers import rule_empty_selection_guarded
+    check.run_rule('C12.R5', lambda c: rule_empty_selection_guarded(c, 'C12.R5'))
     check.run_rule('C12.R2', lambda c: rule_call_table(c, 'C12.R2'))
     check.run_rule('C12.R3', lambda c: rule_forms(c, 'C12.R3'))
     from ..rules_modifiers import rule_descriptor_cache
